@@ -192,7 +192,7 @@ func TestC15(t *testing.T) {
 		"segment is no collection name. items: an actor, an object and a value of each of the other 11 object types (collections holding two members) as the owner, by pointer and by value, also with a type name from another family (a Person held in an Object struct), x 8 names x {no explicit property, explicit IRI, explicit embedded collection}: explicit property wins, else ≡ IRIf(id,c). " +
 		"non-trivial = owner has a trailing slash, port, escape or collection-named segment, or the item has an explicit property; distinct by (owner, name)")
 
-	segs := []string{"users", "~jdoe", "a.b", "%20x", "%41", "a%2Fb", "inbox", "Followers", "replies", "x_y-z", "ü"}
+	segs := []string{"users", "~jdoe", "a.b", "%20x", "%41", "a%2Fb", "inbox", "Followers", "replies", "x_y-z", "ü", "inboxes", "likes2", "outbox.json", "followers2", "Sharesheet"}
 	hosts := []string{"example.com", "example.com:8443", "sub.example.org", "127.0.0.1:3000", "localhost", "inbox", "Followers", "liked:8080", "outbox.example.com", "[::1]", "[2001:db8::1]:8080"} // hosts that are themselves collection names: a host is no path segment
 	var owners []string
 	for _, sch := range []string{"https", "http"} {
